@@ -7,6 +7,7 @@ import (
 
 	"verifharness/drv/ag"
 	"verifharness/drv/cf"
+	"verifharness/drv/cfg"
 	"verifharness/drv/ec"
 	"verifharness/drv/fr"
 	"verifharness/drv/frl"
@@ -57,6 +58,12 @@ func main() {
 		os.Exit(rl.Main(os.Args[2:]))
 	case "tf":
 		os.Exit(tf.Main(os.Args[2:]))
+	case "cfg":
+		os.Exit(cfg.Main(os.Args[2:]))
+	case "cfg-child":
+		os.Exit(cfg.ChildMain(os.Args[2:]))
+	case "cfg-dump":
+		os.Exit(cfg.DumpMain(os.Args[2:]))
 	case "hb":
 		os.Exit(hb.Main(os.Args[2:]))
 	default:
